@@ -73,6 +73,8 @@ def cov_stats(model, c):
     mode = modes(base) + modes(df.drop_duplicates([idc, c])[c]) + modes(df[c])
     cats = sorted(float(x) for x in df[c].dropna().unique())
     return {
+        # which reading each admissible median is (equal readings collapse)
+        "median_reading": (["baselines", "individual_medians"] if fr(med[0]) != fr(med[1]) else ["baselines=individual_medians"]),
         "median": [qj(x) for x in _uniq([fr(x) for x in med])],
         "mean": [qj(x) for x in _uniq([fr(x) for x in mean])],
         "mode": [qj(x) for x in _uniq([fr(x) for x in mode])],
@@ -865,7 +867,7 @@ def main(tier: str, seed: int) -> int:
             steps += len(r["trace"]["events"])
     vers, res = tlc_validate(traces, v)
     judged = skipped = 0
-    stats = {}
+    stats, readings = {}, {}
     for tid in range(1, len(traces) + 1):
         if tid not in vers:
             raise core.MachineryError(f"EffectsTrace: trace {tid} was not explained by the machine: {json.dumps(owners[tid - 1][0])[:400]}")
@@ -879,6 +881,11 @@ def main(tier: str, seed: int) -> int:
                 judged += 1
             else:
                 skipped += 1
+            if act["k"] == "addcov" and "ref" in ver and ver["formula"] == "ok" and act["x"] not in ("cat", "cat2"):
+                st_ = traces[tid - 1]["events"][i]["stat"]
+                if ver["ref"] in st_["median"]:
+                    rd = st_["median_reading"][st_["median"].index(ver["ref"])]
+                    readings[rd] = readings.get(rd, 0) + 1
             if ver.get("design") == "bad":
                 what = {"rmiiv": "the parameter after remove_iiv is not the parameter before with its etas at zero",
                         "rmiov": "the variables after remove_iov are not the variables before with the IOV etas at zero",
@@ -903,7 +910,7 @@ def main(tier: str, seed: int) -> int:
     v.add_coverage(
         cases_emitted_by_tlc=len(cases), histories_executed=len(work), evaluations=steps, distinct_nontrivial=len(nontrivial),
         traces_validated_against_impl=len(vers), events_judged=judged, events_skipped_undefined=skipped,
-        documented_refusals=refused, per_action=stats,
+        documented_refusals=refused, per_action=stats, centre_reading_explaining_the_event=readings,
         rule="every history of the machine within the tier's bounds is a case; executed: all last-action kinds round-robin up to the tier budget (VERIF_SEED); non-trivial = not only documented no-ops",
         samples=[{"model": c["model"], "hist": c["hist"]} for c, _ in owners[:3]],
         exhaustive=len(work) >= len(cases), wall_tlc_explore_s=round(t_tlc, 1), wall_exec_s=round(t_exec, 1), wall_tlc_validate_s=round(res.wall, 1),
